@@ -21,15 +21,23 @@ ran = []
 env = dict(os.environ, REPO_DIR=WT, PYTHONPATH=WT)
 r0 = subprocess.run(["/venv/bin/python", os.path.join(src, "demo.py")], capture_output=True, text=True, env=env, cwd=WT, timeout=1800)
 ran.append("demo on unmodified tree: rc=%d %s" % (r0.returncode, r0.stdout.strip().splitlines()[-1:] ))
+import re
+def pytest_run(tag):
+    tr = subprocess.run(["/venv/bin/python", "-m", "pytest", "-q", "-p", "no:cacheprovider", "-n", "4", "--timeout=1800", "-rf"] + tests, capture_output=True, text=True, env=env, cwd=WT)
+    failed = sorted(set(re.findall(r"^(?:FAILED|ERROR) (\S+)", tr.stdout, re.M)))
+    ran.append("pytest %s on %s tree: rc=%d %s failed=%s" % (" ".join(tests), tag, tr.returncode, tr.stdout.strip().splitlines()[-1:], failed))
+    return tr.returncode, failed
+base_rc, base_failed = pytest_run("unmodified") if tests else (0, [])
 ap = sh("git -C %s apply %s" % (WT, os.path.join(src, "patch.diff")))
 ran.append("git apply: rc=%d %s" % (ap.returncode, ap.stderr.strip()[:200]))
 r1 = subprocess.run(["/venv/bin/python", os.path.join(src, "demo.py")], capture_output=True, text=True, env=env, cwd=WT, timeout=1800)
 ran.append("demo on patched tree: rc=%d %s" % (r1.returncode, r1.stdout.strip().splitlines()[-1:]))
-tr = None
+tests_ok = True
 if tests:
-    tr = subprocess.run(["/venv/bin/python", "-m", "pytest", "-q", "-p", "no:cacheprovider", "-n", "4", "--timeout=1800"] + tests, capture_output=True, text=True, env=env, cwd=WT)
-    ran.append("pytest %s on patched tree: rc=%d %s" % (" ".join(tests), tr.returncode, tr.stdout.strip().splitlines()[-1:]))
-ok = r0.returncode == 0 and ap.returncode == 0 and r1.returncode != 0 and (tr is None or tr.returncode == 0)
+    p_rc, p_failed = pytest_run("patched")
+    # tests that fail on the unmodified tree too (this environment's always-fail list) do not count
+    tests_ok = set(p_failed) <= set(base_failed) and (p_rc == 0 or (base_rc != 0 and p_failed == base_failed))
+ok = r0.returncode == 0 and ap.returncode == 0 and r1.returncode != 0 and tests_ok
 for l in ran:
     print(l)
 sh("git -C /repo worktree remove --force %s" % WT)
